@@ -257,6 +257,10 @@ def zippers(chk):
             continue
         L = loops[0]
         i = L.target.id
+        from ..core.srcmodel import early_exits
+        ex = early_exits(L)
+        chk.check(not ex, 'C01-R5', CAT, q, 'no halo is skipped: no continue/break/return in the halo loop', '',
+                  f'{type(ex[0]).__name__.lower() if ex else ""} at line {ex[0].lineno if ex else 0}: a halo can leave the loop before its particles are decoded', node=ex[0] if ex else L, nontrivial=False)
         okloop = unparse(L.iter) == 'range(N_halo)' and any(unparse(s) == 'N_halo = len(slab_read_offsets)' for s in fn.body)
         b = {unparse(s.targets[0]): unparse(s.value) for s in L.body if isinstance(s, ast.Assign) and isinstance(s.targets[0], ast.Name)}
         okw = b.get('wstart') == f'slab_write_offsets[{i}]' and b.get('wend') == f'slab_write_offsets[{i} + 1]'
